@@ -2,7 +2,7 @@
 From Coq Require Import ZArith List Bool Arith Lia.
 Import ListNotations.
 From OvldV Require Import Model.Graph Model.ClassDict Spec.Overlay Proofs.GraphTab Proofs.GraphBase Proofs.GraphUpd
-  Proofs.GraphInv Proofs.GraphProps Proofs.GraphStack Proofs.ClassDictBase Proofs.ClassDictProps.
+  Proofs.GraphInv Proofs.GraphProps Proofs.GraphLock Proofs.GraphStack Proofs.ClassDictBase Proofs.ClassDictProps.
 
 (* ---------- totality of the operations on a private node ---------- *)
 Lemma cd_register_total : forall g n own ms s l, IsFn g n own ms ->
@@ -15,20 +15,13 @@ Proof.
   rewrite Lg. erewrite upd_private; [reflexivity | apply g_get_mod_same; exact E | cbn; auto | cbn; auto].
 Qed.
 
-Lemma add_mix_nil : forall x, add_mix [] x = x.
-Proof. intros []. unfold add_mix. cbn. rewrite app_nil_r. reflexivity. Qed.
-
-Lemma g_mod_id : forall g n f, (forall x, f x = x) -> g_mod g n f = g.
-Proof. induction g; destruct n; cbn; intros; auto; f_equal; auto. Qed.
-
 Lemma cd_add_self_total : forall g n own ms, Inv g -> IsFn g n own ms -> cd_add_mixins g n [n] = COk g tt.
 Proof.
   intros g n own ms I (x & E & Ho & Hm & (Pl & Pc & Pch & Plb)).
   unfold cd_add_mixins, do_add_mixins. rewrite E.
   assert (valid_ids g [n] = true) as V.
   { unfold valid_ids. cbn. rewrite andb_true_r. apply Nat.ltb_lt. eapply g_get_lt; eauto. }
-  rewrite V. cbn [negb]. rewrite Pl, Plb. cbn [filter]. rewrite Nat.eqb_refl. cbn [negb].
-  rewrite (g_mod_id g n (add_mix [])) by apply add_mix_nil. rewrite (inv_wf _ I). reflexivity.
+  rewrite V. cbn [negb]. rewrite Pl. cbn [filter]. rewrite Nat.eqb_refl. cbn [negb]. reflexivity.
 Qed.
 
 Lemma IsFn_set_own : forall g n own ms own', IsFn g n own ms -> IsFn (g_mod g n (set_own own')) n own' ms.
@@ -285,3 +278,83 @@ Qed.
 
 Lemma Inv_cd_name : forall g bases body g' a, Inv g -> cd_name g bases body = COk g' a -> Inv g'.
 Proof. intros. apply (name_CS _ _ _ _ _ H H0). Qed.
+
+(* ================= a plain definition followed by an extend_super one (crashed before the repair of KF-41) ================= *)
+Lemma mterm_avoid : forall g g' p,
+  (forall j y, g_get g j = Some y -> ~ In p (n_mixins y)) ->
+  (forall j y, j <> p -> g_get g j = Some y -> exists y', g_get g' j = Some y' /\ n_mixins y' = n_mixins y) ->
+  forall f k, k <> p -> mterm f g k = true -> mterm f g' k = true.
+Proof.
+  intros g g' p Hp Hag. induction f; intros k Ne T; [discriminate|].
+  rewrite mterm_S in *. destruct (g_get g k) eqn:E; [|discriminate].
+  destruct (Hag _ _ Ne E) as [y' [Ey' M]]. rewrite Ey', M. rewrite forallb_forall in *. intros m Im.
+  apply IHf; auto. intros ->. eapply Hp; eauto.
+Qed.
+
+Lemma add_leaf_total : forall g p own N ownN, Inv g -> IsFn g p own [] -> IsFn g N ownN [] -> N <> p ->
+  (forall j y, g_get g j = Some y -> ~ In p (n_mixins y)) ->
+  cd_add_mixins g p [N] = COk (g_mod g p (add_mix [N])) tt.
+Proof.
+  intros g p own N ownN I (x & E & Ho & Hm & (Pl & Pc & Pch & Plb)) (xn & En & _ & Hmn & _) Ne Hp.
+  unfold cd_add_mixins, do_add_mixins. rewrite E.
+  assert (N < length g) as LN by (eapply g_get_lt; eauto).
+  assert (p < length g) as Lp by (eapply g_get_lt; eauto).
+  assert (valid_ids g [N] = true) as V by (unfold valid_ids; cbn; rewrite andb_true_r; apply Nat.ltb_lt; auto).
+  rewrite V. cbn [negb]. rewrite Pl. cbn [filter].
+  apply Nat.eqb_neq in Ne. rewrite Ne. cbn [negb]. apply Nat.eqb_neq in Ne. rewrite Plb.
+  set (g2 := g_mod g p (add_mix [N])).
+  assert (length g2 = length g) as L2 by apply length_g_mod.
+  assert (wf_b g2 = true) as W.
+  { apply wf_b_spec. rewrite L2. intros k Lk. split.
+    - destruct (Nat.eq_dec k p) as [->|Nk].
+      + destruct (length g) as [|[|f]] eqn:Lg; try lia.
+        rewrite mterm_S. unfold g2. rewrite (g_get_mod_same _ _ _ _ E). cbn. rewrite Hm. cbn. rewrite andb_true_r.
+        rewrite g_get_mod_other by auto. rewrite En, Hmn. reflexivity.
+      + eapply mterm_avoid with (g := g) (p := p); eauto.
+        * intros j y Nj Ej. exists y. split; auto. unfold g2. rewrite g_get_mod_other; auto.
+        * apply inv_mterm; auto.
+    - eapply cterm_mono_gen with (g := g); [| apply Nat.le_refl | apply inv_cterm; auto].
+      intros j y Ej. unfold g2. rewrite g_get_mod. destruct (Nat.eqb j p) eqn:Ejp.
+      + apply Nat.eqb_eq in Ejp. subst. rewrite E in Ej. injection Ej as <-. rewrite E. cbn. eauto.
+      + eauto. }
+  rewrite W.
+  assert (length g = S (pred (length g))) as Lg by lia.
+  rewrite Lg. erewrite upd_private; [reflexivity | apply g_get_mod_same; exact E | cbn; auto | cbn; auto].
+Qed.
+
+Lemma plain_then_mark : forall g bases d1 d2, Inv g -> prepared_b bases = false ->
+  d_kind d1 = DPlain -> d_kind d2 = DExt ->
+  exists g' p t, cd_name g bases [d1; d2] = COk g' (AOvld p false) /\ length g <= p /\ obs g' p = Some t /\
+    forall k, t_get k t = overlay_get k [[((d_sig d2, 0%Z), d_label d2)]] [((d_sig d1, 0%Z), d_label d1)].
+Proof.
+  intros g bases d1 d2 I NP K1 K2. unfold cd_name. rewrite (prepare_none g bases NP). cbn [cbind cd_body].
+  unfold cd_setitem at 1. rewrite K1. cbn [cbind]. unfold cd_setitem at 1. rewrite K2.
+  destruct (cd_fresh_total g (d_sig d2) (d_label d2)) as (g1 & C1 & F1 & L1 & O1). rewrite C1. cbn [cbind].
+  pose proof (Inv_cd_fresh _ _ _ _ _ I C1) as I1.
+  destruct (cd_fresh_total g1 (d_sig d1) (d_label d1)) as (g2 & C2 & F2 & L2 & O2). rewrite C2. cbn [cbind].
+  pose proof (Inv_cd_fresh _ _ _ _ _ I1 C2) as I2.
+  assert (IsFn g2 (length g) [((d_sig d2, 0%Z), d_label d2)] []) as FN by (eapply IsFn_frame; [exact F1 | apply O2; lia]).
+  assert (forall j y, g_get g2 j = Some y -> ~ In (length g1) (n_mixins y)) as Hp.
+  { intros j y Ej Ij. destruct (Nat.lt_ge_cases j (length g1)) as [Lj|Lj].
+    - rewrite O2 in Ej by auto. pose proof (inv_mixin_lt _ _ _ _ I1 Ej Ij). lia.
+    - assert (j = length g1) as -> by (apply g_get_lt in Ej; lia).
+      destruct F2 as (x & Ex & _ & Hm & _). rewrite Ex in Ej. injection Ej as <-. rewrite Hm in Ij. contradiction. }
+  rewrite (add_leaf_total g2 (length g1) _ (length g) _ I2 F2 FN) by (auto; lia). cbn [cbind].
+  set (g3 := g_mod g2 (length g1) (add_mix [length g])).
+  assert (Inv g3) as I3.
+  { eapply Inv_cd_add_mixins with (g := g2) (n := length g1) (ms := [length g]); eauto.
+    apply (add_leaf_total g2 (length g1) _ (length g) _ I2 F2 FN); auto; lia. }
+  assert (IsFn g3 (length g1) [((d_sig d1, 0%Z), d_label d1)] [length g]) as F3.
+  { destruct F2 as (x & Ex & Ho & Hm & Hp2). eexists. split; [apply g_get_mod_same; eauto|]. cbn. rewrite Hm. auto. }
+  assert (IsFn g3 (length g) [((d_sig d2, 0%Z), d_label d2)] []) as FN3
+    by (eapply IsFn_frame; [exact FN | apply g_get_mod_other; lia]).
+  assert (length g1 < length g3) as Lp by (unfold g3; rewrite length_g_mod; lia).
+  destruct (inv_defns g3 (length g1) I3 Lp) as [t D].
+  destruct F3 as (x3 & Ex3 & Ho3 & Hm3 & Hp3).
+  destruct (overlay_defns g3 (length g1) x3 t I3 Ex3 D) as (pts & FA & Hk).
+  rewrite Hm3 in FA. inversion FA as [|? ptN ? ? DN FA']; subst. inversion FA'; subst.
+  rewrite (defns_private_leaf _ _ _ _ FN3) in DN. injection DN as <-.
+  exists g3, (length g1), t. split; auto. split; [lia|]. split.
+  - unfold obs. rewrite Ex3. destruct Hp3 as (_ & Pc & _). rewrite Pc. exact D.
+  - intros k. rewrite Hk, Ho3. reflexivity.
+Qed.
